@@ -110,7 +110,7 @@ MUTATIONS: list[tuple[str, str, str, str, list[str]]] = [
     ("c07-first-window-one-period", RS, "            now + period * 2 - elapsed,", "            now + period - elapsed,", ["C07"]),
     ("c07-skip-missed", RS, "Timer(config.resampling_period, TriggerAllMissed())", "Timer(config.resampling_period, SkipMissedAndResync())", ["C07"]),
     ("c08-bisect-left-max", RS, "        max_index = bisect(self._buffer, timestamp, key=lambda s: s.timestamp)",
-     "        max_index = bisect_left(self._buffer, timestamp, key=lambda s: s.timestamp)", ["C08"]),
+     "        max_index = bisect(self._buffer, timestamp - timedelta(microseconds=1), key=lambda s: s.timestamp)", ["C08"]),
     ("c08-drop-nan-filter", RS, "            if sample.value is not None and not sample.value.isnan():", "            if sample.value is not None:", ["C08"]),
     ("c08-resampling-period-only", RS, "        minimum_relevant_timestamp = timestamp - period * conf.max_data_age_in_periods",
      "        minimum_relevant_timestamp = timestamp - conf.resampling_period * conf.max_data_age_in_periods", ["C08"]),
@@ -176,6 +176,14 @@ def run(cmd: list[str], timeout: int = 900) -> tuple[int, str]:
     return p.returncode, p.stdout + p.stderr
 
 
+def _save(results: list) -> None:
+    out_path = Path("/verif/selftest_results.json")
+    prev = json.loads(out_path.read_text()) if out_path.exists() else []
+    names = {r["mutation"] for r in results}
+    merged = [r for r in prev if r["mutation"] not in names] + results
+    out_path.write_text(json.dumps(merged, indent=1))
+
+
 def main() -> int:
     args = [a for a in sys.argv[1:] if not a.startswith("--")]
     scale = "0.3"
@@ -215,13 +223,10 @@ def main() -> int:
                                         "witness": wit[0][:300] if wit else None}
                 print(f"{name}: {pid} rc={rc} {'CAUGHT' if rc == 1 else 'MISSED'}")
             results.append(entry)
+            _save(results)
         finally:
             subprocess.run(["git", "-C", str(REPO), "checkout", "--", file], check=True)
-    out_path = Path("/verif/selftest_results.json")
-    prev = json.loads(out_path.read_text()) if out_path.exists() else []
-    names = {r["mutation"] for r in results}
-    merged = [r for r in prev if r["mutation"] not in names] + results
-    out_path.write_text(json.dumps(merged, indent=1))
+    _save(results)
     missed = [r["mutation"] for r in results if any(c["rc"] != 1 for c in r.get("checks", {}).values())]
     print(f"{len(results)} mutations run; missed: {missed}")
     return 0
